@@ -45,8 +45,22 @@ ASSUMPTIONS = [
     "inputs the public API rejects before sending anything (e.g. send_c_store(Dataset())) are skipped and counted",
 ]
 WORKERS = {"quick": 16, "thorough": 16}
-REQUIRE = {"messages_judged": 150, "pair_cases": 40, "peer_acc_cases": 12, "peer_req_cases": 12,
-           "req_empty_dataset_sent": 6, "rsp_empty_dataset_handlers": 6, "apis_covered": 12}
+QUICK_CONCURRENT = 0      # concurrency cases in the quick tier (DESIGN: thorough only); raise once the finding is fixed/recorded
+
+
+def REQUIRE(tier):
+    q = tier == "quick"
+    req = {"messages_judged": 150 if q else 3000, "pair_cases": 60 if q else 400, "peer_acc_cases": 20 if q else 100,
+           "peer_req_cases": 20 if q else 100, "req_empty_dataset_sent": 10, "rsp_empty_dataset_handlers": 10,
+           "rsp_none_dataset_handlers": 10, "rsp_with_dataset_on_wire": 15, "retrieve_final_with_identifier": 5,
+           "req_zero_length_dataset_fragment": 2, "multi_fragment_messages": 30, "apis_covered": 12,
+           "message_types_covered": 23}
+    if not q or QUICK_CONCURRENT:
+        req.update({"concurrent_cases": 4 if q else 40, "concurrent_send_msg_entered_together": 2 if q else 40,
+                    "yield_hits": 100 if q else 2000})
+    return req
+
+
 MAX_INCONCLUSIVE_FRAC = 0.03
 
 VERIF = "1.2.840.10008.1.1"
@@ -83,25 +97,51 @@ class SendTap:
             cls.serial = 0
 
     @classmethod
-    def overlapping(cls, assoc_id):
-        """Number of send_msg calls on `assoc_id` during which another thread queued a fragment of another call."""
+    def windows_together(cls, assoc_id):
+        """Number of send_msg calls on `assoc_id` entered while another call on it had not returned (reach of the race)."""
         with cls.lock:
             ev = [e for e in cls.events if e[2] == assoc_id]
-        open_calls = {}
-        bad = set()
-        for (_, kind, _, tid, serial) in ev:
+        open_calls, n = set(), 0
+        for (_, kind, _, _, serial) in ev:
             if kind == "enter":
-                open_calls[serial] = tid
+                if open_calls:
+                    n += 1
+                open_calls.add(serial)
             elif kind == "exit":
-                open_calls.pop(serial, None)
-            elif kind == "pdu":
-                for s2 in open_calls:
-                    if s2 != serial and cls._sent.get(s2):
-                        bad.add(s2)
-                cls._sent[serial] = True
-        return len(bad)
+                open_calls.discard(serial)
+        return n
 
-    _sent = {}
+    @classmethod
+    def overlapping(cls, assoc_id):
+        """Number of send_msg calls on `assoc_id` between whose first and last queued fragment another call queued one."""
+        with cls.lock:
+            pdus = [(i, serial) for i, (_, kind, aid, _, serial) in enumerate(cls.events) if aid == assoc_id and kind == "pdu"]
+        span = {}
+        for i, serial in pdus:
+            lo, hi = span.get(serial, (i, i))
+            span[serial] = (min(lo, i), max(hi, i))
+        bad = 0
+        for serial, (lo, hi) in span.items():
+            if any(lo < i < hi and s2 != serial for i, s2 in pdus):
+                bad += 1
+        return bad
+
+
+class RecvTap:
+    """Every incoming message the receiving DIMSE provider completed and converted to a primitive (the point where it is
+    handed to the service layer: message queue / N-EVENT-REPORT thread / C-CANCEL table), per association, in order."""
+    lock = threading.Lock()
+    events = []     # (assoc id, message name, message id)
+
+    @classmethod
+    def reset(cls):
+        with cls.lock:
+            cls.events = []
+
+    @classmethod
+    def of(cls, assoc):
+        with cls.lock:
+            return [(n, m) for (a, n, m) in cls.events if a == id(assoc)]
 
 
 def _install_send_tap():
@@ -109,8 +149,39 @@ def _install_send_tap():
         return
     _TAP["installed"] = True
     from pynetdicom.dimse import DIMSEServiceProvider
+    from pynetdicom.dimse_messages import DIMSEMessage
     from pynetdicom.dul import DULServiceProvider
     tl = threading.local()
+    orig_recv = DIMSEServiceProvider.receive_primitive
+    orig_m2p = DIMSEMessage.message_to_primitive
+
+    def receive_primitive(self, primitive):
+        prev = getattr(tl, "assoc", None)
+        tl.assoc = self.assoc
+        try:
+            return orig_recv(self, primitive)
+        finally:
+            tl.assoc = prev
+
+    def message_to_primitive(self):
+        prim = orig_m2p(self)
+        assoc = getattr(tl, "assoc", None)
+        if assoc is not None:
+            try:
+                name = type(self).__name__.replace("_", "-")
+                if name.endswith("-RQ") and name != "C-CANCEL-RQ":
+                    mid = getattr(prim, "MessageID", None)
+                else:
+                    mid = getattr(prim, "MessageIDBeingRespondedTo", None)
+                with RecvTap.lock:
+                    RecvTap.events.append((id(assoc), name, None if mid is None else int(mid)))
+            except Exception as exc:
+                with RecvTap.lock:
+                    RecvTap.events.append((id(assoc), "tap-error", repr(exc)[:80]))
+        return prim
+
+    DIMSEServiceProvider.receive_primitive = receive_primitive
+    DIMSEMessage.message_to_primitive = message_to_primitive
     orig_send_msg = DIMSEServiceProvider.send_msg
     orig_send_pdu = DULServiceProvider.send_pdu
 
@@ -144,9 +215,8 @@ def setup_worker():
     harness.quiet_logging()
     warnings.simplefilter("ignore")
     taps.install()
+    _remember_originals()
     _install_send_tap()
-    from pynetdicom.dimse import DIMSEServiceProvider
-    fn = getattr(DIMSEServiceProvider.send_msg, "__wrapped__", None)
     YP = sched.YieldPoints([(_ORIG["send_msg"], "self.dul.send_pdu(pdata)", 0)], seed=0, p_yield=0.9, max_delay=0.004)
     YP.install()
     YP.enabled = False
@@ -336,7 +406,6 @@ class Log:
     def __init__(self):
         self.lock = threading.Lock()
         self.handler = []     # (event, message id, received data-set length)
-        self.recv = {"acc": [], "req": []}     # (name, message id) per completed incoming message (EVT_DIMSE_RECV)
 
     def h(self, ev, mid, dlen=None):
         with self.lock:
@@ -353,22 +422,6 @@ def _ds_len(req, kw):
         return None if b is None else len(b.getvalue())
     except Exception:
         return None
-
-
-def recv_tap(log, side):
-    def h(event):
-        try:
-            msg = event.message
-            name = type(msg).__name__.replace("_", "-")
-            cs = msg.command_set
-            mid = cs.get("MessageID").value if "MessageID" in cs and name != "C-CANCEL-RQ" and name.endswith("-RQ") else (
-                cs.MessageIDBeingRespondedTo if "MessageIDBeingRespondedTo" in cs else None)
-            with log.lock:
-                log.recv[side].append((name, mid))
-        except Exception as exc:     # the tap must never disturb the code under test
-            with log.lock:
-                log.recv[side].append(("tap-error", repr(exc)[:80]))
-    return h
 
 
 def make_scp_handlers(case, log, box):
@@ -403,9 +456,13 @@ def make_scp_handlers(case, log, box):
         if mode == "cancel-wait":
             yield 0xFF00, mk_ds("nonempty", size, query=True)
             t0 = time.time()
-            while not event.is_cancelled and time.time() - t0 < 2.5:
+            seen = False        # is_cancelled consumes the C-CANCEL: read it once
+            while time.time() - t0 < 2.5:
+                if event.is_cancelled:
+                    seen = True
+                    break
                 time.sleep(0.003)
-            if event.is_cancelled:
+            if seen:
                 log.h("C-CANCEL", mid)
             yield 0xFE00, None
             return
@@ -471,7 +528,7 @@ def make_scp_handlers(case, log, box):
             (evt.EVT_N_ACTION, n_handler("N-ACTION", "ActionInformation")),
             (evt.EVT_N_CREATE, n_handler("N-CREATE", "AttributeList")),
             (evt.EVT_N_EVENT_REPORT, n_handler("N-EVENT-REPORT", "EventInformation")),
-            (evt.EVT_N_DELETE, h_delete), (evt.EVT_DIMSE_RECV, recv_tap(log, "acc"))]
+            (evt.EVT_N_DELETE, h_delete)]
 
 
 def make_acceptor(case, log, box, dimse_timeout):
@@ -506,8 +563,10 @@ def call_api(assoc, case, log, tmpdir):
         elif api == "c_store":
             mode = case.get("store_mode", "dataset")
             ct_ts = TS[case.get("ct_ts", "implicit")]
-            if mode == "dataset":
-                obj = mk_ds("empty") if case["ds"] == "empty" else (None if case["ds"] == "absent" else mk_ct(ct_ts, case.get("ds_size", 0)))
+            if case["ds"] == "absent":
+                obj = None
+            elif mode == "dataset":
+                obj = mk_ds("empty") if case["ds"] == "empty" else mk_ct(ct_ts, case.get("ds_size", 0))
             else:
                 obj = write_dicom_file(tmpdir, ct_ts, empty=(case["ds"] == "empty"), size=case.get("ds_size", 0))
             one(assoc.send_c_store(obj, msg_id=mid))
@@ -577,6 +636,7 @@ def run_pair_once(case, counters, dimse_timeout):
     from pynetdicom import evt, build_role
     taps.reset()
     SendTap.reset()
+    RecvTap.reset()
     log = Log()
     box = {}
     viol = []
@@ -603,12 +663,13 @@ def run_pair_once(case, counters, dimse_timeout):
 
         assoc = req_ae.associate("127.0.0.1", port, max_pdu=case.get("req_max", 16382), ae_title="C16-SCP",
                                  ext_neg=[build_role(CT, scu_role=True, scp_role=True)],
-                                 evt_handlers=[(evt.EVT_C_STORE, h_store_scu), (evt.EVT_DIMSE_RECV, recv_tap(log, "req"))])
+                                 evt_handlers=[(evt.EVT_C_STORE, h_store_scu)])
         if not assoc.is_established:
             return dict(viol=[], inconclusive="association not established", sample={}, nontrivial=False, sigs=[])
         outcome = call_api(assoc, case, log, tmpdir)
         echo_id = (case.get("msg_id", 7) + 101) % 65535 + 1
         echo_ok, echo_err = False, None
+        time.sleep(0.005)
         try:
             st = assoc.send_c_echo(msg_id=echo_id)
             echo_ok = getattr(st, "Status", None) == 0x0000
@@ -632,6 +693,7 @@ def run_pair_once(case, counters, dimse_timeout):
         for i, p in enumerate(roles["move-dest"]):
             streams["move-dest:%d" % i] = taps.wire_bytes(p.sid, "tx")
         excs = list(taps.State.excs)
+        recv = {"req": RecvTap.of(assoc), "acc": RecvTap.of(roles["acceptor"].assoc) if roles["acceptor"] is not None else []}
     finally:
         _config.STORE_SEND_CHUNKED_DATASET = saved_chunk
         for ae in (req_ae, acc_ae):
@@ -678,7 +740,7 @@ def run_pair_once(case, counters, dimse_timeout):
     # ---- (a) every message on a sender's wire was completed by the receiving pynetdicom (EVT_DIMSE_RECV, in order)
     for sender, other in (("requestor", "acc"), ("acceptor", "req")):
         sent = [(s["name"], s["mid"]) for s in msgs.get(sender, [])]
-        got = list(log.recv[other])
+        got = list(recv[other])
         for i, item in enumerate(sent):
             if i >= len(got) or got[i] != item:
                 var = case.get("ds") if item[0].endswith("-RQ") else case.get("rsp")
@@ -711,13 +773,23 @@ def run_pair_once(case, counters, dimse_timeout):
     rsp_name = (rq_name if api != "c_cancel" else "C-FIND-RQ")[:-3] + "-RSP"
     wire_status = [s["status"] for s in acc_msgs if s["name"] == rsp_name and s["mid"] == main_mid]
     got_status = [r[0] for r in outcome["results"]]
-    if wire_status != got_status:
+    if delivery and not wire_status:
+        pass        # the request itself was not delivered (reported above): there is no response to judge
+    elif wire_status != got_status:
         undelivered(rsp_name, case.get("rsp"), "statuses on the acceptor's wire %r, returned/yielded by send_%s %r (raised %r)" % (
             [hex(x) if isinstance(x, int) else x for x in wire_status], api, [hex(x) if isinstance(x, int) else x for x in got_status],
             outcome["raised"]))
-    if not wire_status:
+    if not wire_status and not delivery:
         undelivered(rsp_name, case.get("rsp"), "no response to %s %r on the acceptor's wire" % (rq_name, main_mid))
-    # ---- (d) the association survives
+    # ---- (d) the association survives: the follow-up C-ECHO-RQ is completed by the acceptor and answered on the wire.
+    # (Whether the requestor's send_c_echo() then returns that answer is not this property's subject: back-to-back send_*
+    # calls race with the requestor's reactor thread, which can take the response off the queue and drop it.)
+    echo_served = ("C-ECHO-RQ", echo_id) in recv["acc"] and any(a["name"] == "C-ECHO-RSP" and a["mid"] == echo_id for a in acc_msgs)
+    if echo_served and not echo_ok:
+        bump(counters, "echo_response_completed_but_not_returned")
+        sample["echo_note"] = "C-ECHO-RSP %d completed by the requestor's DIMSE provider: %r; send_c_echo: %r" % (
+            echo_id, ("C-ECHO-RSP", echo_id) in recv["req"], echo_err)
+    echo_ok = echo_ok or echo_served
     if not echo_ok and not delivery:
         delivery.append({"key": "association-lost-after|%s|%s" % (rq_name, variant_label(case.get("ds"))),
                          "detail": "follow-up C-ECHO failed (%r) although every message was delivered; results %r" % (echo_err, outcome["results"])})
@@ -752,22 +824,8 @@ def run_pair_once(case, counters, dimse_timeout):
     return dict(viol=viol, delivery=delivery, inconclusive=None, sample=sample, nontrivial=True, sigs=sigs, wire_clean=wire_clean)
 
 
-def run_pair(case, counters):
-    r = run_pair_once(case, counters, 3.0)
-    if r.get("delivery") and r.get("wire_clean"):
-        # clean wire but delivery failed: re-run once with a generous DIMSE timeout before counting it (machine load)
-        bump(counters, "retries")
-        c2 = {}
-        r2 = run_pair_once(case, c2, 8.0)
-        if not r2.get("delivery") and not r2["viol"]:
-            bump(counters, "retries_recovered")
-            r["delivery"] = []
-            r["sample"]["retry"] = "first attempt failed delivery on a clean wire, retry with 8 s timeout delivered"
-        else:
-            r = r2
-            for k, v in c2.items():
-                if k.startswith("retr"):
-                    bump(counters, k, v)
+def run_pair(case, counters, attempt=0):
+    r = run_pair_once(case, counters, 3.0 if attempt == 0 else 8.0)
     r["viol"] = list(r["viol"]) + list(r.get("delivery") or [])
     return r
 
@@ -865,10 +923,11 @@ def peer_acceptor_script(lst, case, rec, stop):
         peer.close()
 
 
-def run_peer_acc(case, counters):
+def run_peer_acc(case, counters, attempt=0):
     from pynetdicom import evt
     taps.reset()
     SendTap.reset()
+    RecvTap.reset()
     log = Log()
     viol = []
     tmpdir = tempfile.mkdtemp(prefix="c16_")
@@ -888,8 +947,7 @@ def run_peer_acc(case, counters):
         req_ae.add_requested_context(CT, TS["implicit"])
         for uid in (FIND, MOVE, GET, PRINTER):
             req_ae.add_requested_context(uid, TS["implicit"])
-        assoc = req_ae.associate("127.0.0.1", lst.port, max_pdu=case.get("req_max", 16382),
-                                 evt_handlers=[(evt.EVT_DIMSE_RECV, recv_tap(log, "req"))])
+        assoc = req_ae.associate("127.0.0.1", lst.port, max_pdu=case.get("req_max", 16382))
         if not assoc.is_established:
             stop.set()
             return dict(viol=[], inconclusive="association with the scripted acceptor not established (%r)" % rec.get("error"),
@@ -897,6 +955,7 @@ def run_peer_acc(case, counters):
         outcome = call_api(assoc, case, log, tmpdir)
         echo_id = (case.get("msg_id", 7) + 101) % 65535 + 1
         echo_ok, echo_err = False, None
+        time.sleep(0.005)
         try:
             st = assoc.send_c_echo(msg_id=echo_id)
             echo_ok = getattr(st, "Status", None) == 0x0000
@@ -962,7 +1021,10 @@ def run_peer_acc(case, counters):
             # the peer answered; an empty status means the requestor could not take the (reference-built) answer - not C16's subject
             return dict(viol=viol, inconclusive="requestor returned no status for a delivered request (results %r raised %r, peer %r)" % (
                 outcome["results"], outcome["raised"], rec["events"][:6]), sample=sample, nontrivial=False, sigs=sigs)
-        if not echo_ok:
+        echo_served = ("C-ECHO-RQ", echo_id) in got
+        if echo_served and not echo_ok:
+            bump(counters, "echo_response_completed_but_not_returned")
+        if not (echo_ok or echo_served):
             viol.append({"key": "association-lost-after|%s|%s" % (rq_name, variant_label(case.get("ds"))),
                          "detail": "follow-up C-ECHO failed: %r; peer events %r" % (echo_err, rec["events"][:8])})
     bump(counters, "peer_acc_cases")
@@ -1017,9 +1079,10 @@ def peer_request(rt, mid, data):
 PENDING = (0xFF00, 0xFF01)
 
 
-def run_peer_req(case, counters):
+def run_peer_req(case, counters, attempt=0):
     taps.reset()
     SendTap.reset()
+    RecvTap.reset()
     log = Log()
     box = {}
     viol = []
@@ -1129,11 +1192,11 @@ def run_peer_req(case, counters):
 
 # ================================================================== scenario: N-EVENT-REPORT while a C-FIND is answered
 
-def run_concurrent(case, counters):
+def run_concurrent(case, counters, attempt=0):
     from pynetdicom import evt
     taps.reset()
     SendTap.reset()
-    SendTap._sent = {}
+    RecvTap.reset()
     log = Log()
     box = {}
     viol = []
@@ -1199,6 +1262,7 @@ def run_concurrent(case, counters):
     bump(counters, "messages_judged", len(msgs))
     bump(counters, "concurrent_cases")
     bump(counters, "concurrent_send_msg_overlaps", overlaps)
+    bump(counters, "concurrent_send_msg_entered_together", SendTap.windows_together(acc_assoc_id))
     multi = sum(1 for s in msgs if (s["cfrags"] + s["dfrags"]) > 2)
     bump(counters, "multi_fragment_messages", multi)
     if YP is not None:
@@ -1249,7 +1313,7 @@ def gen_cases(tier, seed):
                 "acc_max": rng.choice(maxes), "req_max": rng.choice(maxes)}
 
     # ---- pair: every API x request data-set variant x handler response variant
-    reps = 1 if quick else 6
+    reps = 2 if quick else 8
     for rep in range(reps):
         for api in APIS:
             for ds in ("absent", "empty", "nonempty"):
@@ -1298,7 +1362,7 @@ def gen_cases(tier, seed):
                                   final_status=rng.choice([0xA702, 0xB000]), subop_status=rng.choice([0xA700, 0xB000, 0x0000]),
                                   store_status=0xA700, ct_size=rng.choice(big), ds_size=0, rsp_size=0, **common()))
     # ---- scripted acceptor
-    reps = 1 if quick else 5
+    reps = 2 if quick else 6
     for rep in range(reps):
         for api in APIS:
             for ds in ("absent", "empty", "nonempty"):
@@ -1335,27 +1399,34 @@ def gen_cases(tier, seed):
                     c["rsp_status"] = rng.choice([0x0000, 0x0000, 0x0107, 0x0116, 0x0110])
                 cases.append(c)
     # ---- concurrency (thorough)
-    if not quick:
-        for i in range(60):
+    for i in range(QUICK_CONCURRENT if quick else 80):
+        if True:
             cases.append(dict(kind="concurrent", req_max=rng.choice([32, 48, 64, 128, 256]), n_pending=rng.choice([4, 6, 10]),
                               n_events=rng.choice([1, 2, 4, 6]), rsp_size=rng.choice([300, 1000, 3000]), ds_size=rng.choice([0, 300]),
                               yields=(i % 6 != 0), yseed=rng.randrange(1 << 30), gap=rng.choice([0, 0, 0.002, 0.01]), acc_max=16382))
     return cases
 
 
+RUNNERS = {"pair": run_pair, "peer-acc": run_peer_acc, "peer-req": run_peer_req, "concurrent": run_concurrent}
+DELIVERY_ONLY = ("not-delivered|", "association-lost-after|")
+
+
 def run_case(case):
     counters = {}
-    kind = case["kind"]
-    if kind == "pair":
-        r = run_pair(case, counters)
-    elif kind == "peer-acc":
-        r = run_peer_acc(case, counters)
-    elif kind == "peer-req":
-        r = run_peer_req(case, counters)
-    elif kind == "concurrent":
-        r = run_concurrent(case, counters)
-    else:
-        raise ValueError(kind)
+    runner = RUNNERS[case["kind"]]
+    r = runner(case, counters)
+    if r["viol"] and all(v["key"].startswith(DELIVERY_ONLY) for v in r["viol"]):
+        # clean wire but delivery not observed: re-run once (longer DIMSE timeout) before counting it - machine load
+        bump(counters, "retries")
+        c2 = {}
+        r2 = runner(case, c2, 1)
+        if not r2["viol"] and not r2.get("inconclusive"):
+            bump(counters, "retries_recovered")
+            r["viol"] = []
+            if isinstance(r.get("sample"), dict):
+                r["sample"]["retry"] = "first attempt: delivery not observed on a clean wire; second attempt delivered"
+        else:
+            r = r2
     seen, out = set(), []
     for v in r["viol"]:
         bump(counters, "violating_observations")
